@@ -6,7 +6,11 @@
   `till` made by a Queue method, every length test and every mutation of the deque, parking in
   `lock.wait()` and the value it returns.  The Lock's baton is abstracted: `signalled t` is set by the
   environment at any time (any wake-up policy, even spurious), so the safety theorems do not depend
-  on the notification discipline (that is C06).  Values are `Nat`.  silent mode, unique = False.
+  on the notification discipline (that is C06).  Values are `Nat`.  unique = False.
+  Both modes of `_wait_for_queue_space`: a silent queue parks on the caller's till; a queue that is not
+  silent (the default) parks on a FRESH 5 s stall timer every turn of the loop (`stalled t`, fired by the
+  environment, reset when the producer parks again), then re-tests its till and the length for the
+  "queue is full" alert and goes back to the loop head.
 -/
 import MoThreads.Model.Sched
 namespace MoThreads.Queue
@@ -34,6 +38,9 @@ inductive PC
   | sRel2 (a : Act) (tl : Option Nat)                 --      … releases the mutex
   | sParked (a : Act) (tl : Option Nat)               --      … parked, then re-acquires
   | sWoke (a : Act) (tl : Option Nat)                 --      … wait() returned
+  | sAlertT (a : Act) (x : Nat)                       -- :150 `if not till` (not silent)
+  | sAlertLen (a : Act) (tl : Option Nat)             -- :150 `len(self.queue) >= self.max`
+  | sAlertNum (a : Act) (tl : Option Nat)             -- :152-157 logger.alert(…, num=len(self.queue), …)
   | sPost (a : Act)                                   -- :160 `if self.closed and not allow_add_after_close`
   | sAct (a : Act) (checked : Bool)                   -- append / appendleft / extend loop
   | sRel (r : Res)                                    -- leaving the with block
@@ -74,12 +81,14 @@ inductive Op
 structure State where
   max : Nat
   allow : Bool                     -- allow_add_after_close
+  silent : Bool
   dq0 : List Nat                   -- initial contents
   dq : List Nat                    -- the deque, head first
   closed : Bool
   mutex : Option Nat
   tillFired : Nat → Bool
   signalled : Nat → Bool           -- thread t's waiter has been signalled (environment: any policy)
+  stalled : Nat → Bool             -- the stall timer of producer t's current wait has fired (not silent)
   pc : Nat → PC
   -- ghosts: linearised history
   added : List Nat                 -- values appended at the back, in order
@@ -89,9 +98,9 @@ structure State where
 def State.setPc (s : State) (t : Nat) (p : PC) : State :=
   { s with pc := fun u => if u = t then p else s.pc u }
 
-def init (max : Nat) (allow : Bool) (dq0 : List Nat) : State :=
-  { max, allow, dq0, dq := dq0, closed := false, mutex := none, tillFired := fun _ => false,
-    signalled := fun _ => false, pc := fun _ => .idle .none, added := [], pushed := [], removed := [] }
+def init (max : Nat) (allow : Bool) (silent : Bool) (dq0 : List Nat) : State :=
+  { max, allow, silent, dq0, dq := dq0, closed := false, mutex := none, tillFired := fun _ => false,
+    signalled := fun _ => false, stalled := fun _ => false, pc := fun _ => .idle .none, added := [], pushed := [], removed := [] }
 
 def tillOn (s : State) (tl : Option Nat) : Bool :=
   match tl with
@@ -115,6 +124,8 @@ def call (s : State) (t : Nat) (op : Op) : Option State :=
 
 def fireTill (s : State) (x : Nat) : State := { s with tillFired := fun y => if y = x then true else s.tillFired y }
 def signal (s : State) (t : Nat) : State := { s with signalled := fun u => if u = t then true else s.signalled u }
+/-- the stall timer of producer `t` fires -/
+def stall (s : State) (t : Nat) : State := { s with stalled := fun u => if u = t then true else s.stalled u }
 /-- close() issued from outside the modelled threads -/
 def envClose (s : State) : State := { s with closed := true }
 
@@ -130,14 +141,18 @@ def step (s : State) (t : Nat) : Option (State × Label) :=
     some (s.setPc t (if s.max ≤ s.dq.length then (match tl with | some x => .sTill a x | none => .sPark a tl) else .sPost a),
           .lenR s.dq.length)
   | .sTill a x => some (s.setPc t (if s.tillFired x then .sRel .timeout else .sPark a (some x)), .tillR x (s.tillFired x))
-  | .sPark a tl => some (s.setPc t (.sRel2 a tl), .park)
+  | .sPark a tl => some ({ s with stalled := fun u => if u = t then false else s.stalled u }.setPc t (.sRel2 a tl), .park)   -- a fresh stall timer
   | .sRel2 a tl => some ({ s with mutex := none }.setPc t (.sParked a tl), .rel)
   | .sParked a tl =>
-    if (s.signalled t || tillOn s tl) && s.mutex = none then
+    if (s.signalled t || (if s.silent then tillOn s tl else s.stalled t)) && s.mutex = none then
       some ({ s with mutex := some t }.setPc t (.sWoke a tl), .acq)
     else none
   | .sWoke a tl =>
-    some ({ s with signalled := fun u => if u = t then false else s.signalled u }.setPc t (.sC a tl), .woke (s.signalled t))
+    some ({ s with signalled := fun u => if u = t then false else s.signalled u }.setPc t
+            (if s.silent then .sC a tl else (match tl with | some x => .sAlertT a x | none => .sAlertLen a none)), .woke (s.signalled t))
+  | .sAlertT a x => some (s.setPc t (if s.tillFired x then .sC a (some x) else .sAlertLen a (some x)), .tillR x (s.tillFired x))
+  | .sAlertLen a tl => some (s.setPc t (if s.max ≤ s.dq.length then .sAlertNum a tl else .sC a tl), .lenR s.dq.length)
+  | .sAlertNum a tl => some (s.setPc t (.sC a tl), .lenR s.dq.length)
   | .sPost a => some (s.setPc t (if s.closed && !s.allow then .sRel .closedErr else .sAct a true), .closedR s.closed)
   | .sAct a _ =>
     match a with
@@ -186,8 +201,8 @@ def step (s : State) (t : Nat) : Option (State × Label) :=
   | .kClose => some ({ s with closed := true }.setPc t (.sRel .ok), .close)
 
 def sys : Sys State Label where
-  init s := ∃ m a d, s = init m a d
-  env s s' := (∃ t op, call s t op = some s') ∨ (∃ x, s' = fireTill s x) ∨ (∃ t, s' = signal s t) ∨ s' = envClose s
+  init s := ∃ m a sl d, s = init m a sl d
+  env s s' := (∃ t op, call s t op = some s') ∨ (∃ x, s' = fireTill s x) ∨ (∃ t, s' = signal s t) ∨ (∃ t, s' = stall s t) ∨ s' = envClose s
   step := step
 
 end MoThreads.Queue
